@@ -316,6 +316,34 @@ class Engine:
                             # and `match o { None => .., Some(x) => .. }` record the same decision
                             ov = next(iter(dvs - rest))
                         branches.append((ov, t['otherwise']))
+                    if is_bool and atom[:2] == ('term', 'Eq') and len(atom[2]) == 2:
+                        a0_, a1_ = atom[2]
+                        if is_c(a0_):
+                            a0_, a1_ = a1_, a0_
+                        if isinstance(a0_, tuple) and a0_[:2] == ('term', 'discr') and is_c(a1_):
+                            # `x == Enum::Unit` / `matches!(x, Enum::Unit)` compiled to a comparison: record the decision on discr(x)
+                            kd, k_ = key(a0_), a1_[1]
+                            fd = s.facts.get(kd)
+                            exd = fd[1] if isinstance(fd, tuple) else frozenset()
+                            dvs = self._discr_values(self.discr_adt.get(kd, ''))
+                            nb = []
+                            for (v_, tg_) in branches:
+                                if v_ == 1:
+                                    if (isinstance(fd, int) and fd != k_) or k_ in exd:
+                                        continue
+                                    nb.append((k_, tg_))
+                                else:
+                                    if isinstance(fd, int):
+                                        if fd == k_:
+                                            continue
+                                        nb.append((fd, tg_))
+                                        continue
+                                    rest_ = frozenset({k_}) | exd
+                                    ov_ = ('ne', rest_)
+                                    if dvs is not None and rest_ <= dvs and len(dvs - rest_) == 1:
+                                        ov_ = next(iter(dvs - rest_))
+                                    nb.append((ov_, tg_))
+                            branches, atom, ak = nb, a0_, kd
                     # the otherwise edge of an enum discriminant switch with all variants listed is unreachable
                     branches = [(v, tg) for (v, tg) in branches
                                 if fn['blocks'][tg]['term']['k'] != 'unreachable' or fn['blocks'][tg]['stmts']]
@@ -645,6 +673,12 @@ class Engine:
             for vi, var in enumerate(a['variants']):
                 if int(var['discr']) == b[0] and not var['fields']:
                     return ('adt', ty, vi, var['name'], [])
+        if a and a['enum'] and len(b) > 1 and len(a['variants']) <= 256 and \
+                all(f_['ty'] in INT_W for var in a['variants'] for f_ in var['fields']):
+            # an enum whose data variants carry only integers has no niche: a one-byte tag at offset 0; a fieldless variant is decided by it
+            for vi, var in enumerate(a['variants']):
+                if int(var['discr']) == b[0] and not var['fields']:
+                    return ('adt', ty, vi, var['name'], [])
         return None
 
     def discr(self, v, adt, s):
@@ -724,7 +758,10 @@ class Engine:
             return TOP
         if k == 'repeat':
             v = self.operand(rv['a'], fn, fid, s)
-            return ('term', 'repeat', [v, C(rv['n'])])
+            n_ = rv['n']
+            if isinstance(n_, int) and n_ < 0 and isinstance(s.mem.get((fid, '#cgen')), int):
+                n_ = s.mem[(fid, '#cgen')]       # `[x; N]` with N the function's const generic, bound for this frame by the caller
+            return ('term', 'repeat', [v, C(n_)])
         if k == 'bin':
             a = self.operand(rv['a'], fn, fid, s)
             b = self.operand(rv['b'], fn, fid, s)
@@ -918,6 +955,15 @@ class Engine:
         if tc in ('core::cmp::PartialEq::eq', 'core::cmp::PartialEq::ne'):
             if local_manual:
                 return None
+            for i_, j_ in ((0, 1), (1, 0)):
+                cv = self.purify(dv(i_), s)
+                if isinstance(cv, tuple) and cv[0] == 'adt' and not cv[4] and cv[1] in self.p.adts and self.p.adts[cv[1]]['enum'] and \
+                        (lf is None or lf.get('derived')):
+                    # `x == Enum::Unit` with the derived PartialEq: true iff x is that variant — the decision a `match` records
+                    other = self.purify(dv(j_), s)
+                    if not (isinstance(other, tuple) and other[0] == 'adt'):
+                        dk_ = C(int(self.p.adts[cv[1]]['variants'][cv[2]]['discr']))
+                        return one(self.binop('Ne' if tc.endswith('::ne') else 'Eq', self.discr(other, cv[1], s), dk_))
             return one(self.binop('Ne' if tc.endswith('::ne') else 'Eq', self.strip_typed(dv(0), aty(0), s), self.strip_typed(dv(1), aty(1), s)))
         m = re.match(r'core::cmp::PartialOrd::(lt|le|gt|ge)$', tc)
         if m:
